@@ -1,6 +1,6 @@
 """C18 - Thermocouple conversions follow the NIST ITS-90 reference functions.   (exploration; weakest fit)
 
-types B,E,J,K,N,R,S,T x {forward, inverse} x a uniform grid over the type's range (10^5 quick / 2*10^5 thorough
+types B,E,J,K,N,R,S,T x {forward, inverse} x a uniform grid over the type's range (10^5 quick / 10^6 thorough
 points per type and direction) + every piece boundary and its floating point neighbours (two steps each side);
 ThermocoupleScaling for all 8 type codes x both directions on float32 / float64 input.
 Oracle: the NIST SRD-60 coefficient tables shipped with `thermocouples_reference` (an independent transcription;
@@ -310,7 +310,7 @@ def through_file(item):
 
 
 def run(ctx):
-    npts = 100000 if ctx.tier == 'quick' else 200000
+    npts = 100000 if ctx.tier == 'quick' else 1000000
     rs = ctx.map(run_type, [(t, npts, ctx.seed) for t in TYPES])
     rf = ctx.map(through_file, [(t, ctx.seed) for t in TYPES])
     viol = [v for r in rs + rf for v in r['violations']]
